@@ -2,6 +2,11 @@
  * teardown at thread exit) and is an op list over a heap graph of instrumented objects.  Used by C01
  * (reachability), C06 (finalised exactly once / everything released) and C17 (registry exactness).
  *
+ * Ops (one per line): retype m | new h kind cls [target|residue] | alloc h kind cls | copy h src | store s k t | unstore s k |
+ * setat s i t | pushat s i t | popat s i | clear s | stk i h | unstk i | tls k h | untls k | del h | dt h | collect | churn base n |
+ * fill base max | many new base n cls | many del base n step | chain h base n how | stop | start | fin | alive h... | dump h |
+ * mem h | gcchk | stat | joinlate n (first line only).
+ *
  * Objects are named by small integer handles kept in a table the collector cannot see (static memory).
  * Link with -Wl,--wrap=malloc,--wrap=calloc,--wrap=realloc,--wrap=free for block accounting.
  */
@@ -15,19 +20,21 @@
 #define DEADCAN 0xDEADDEADDEADDEADULL
 
 enum { K_NODE, K_NODEA, K_REF, K_BOX, K_ARR, K_LST, K_TAB, K_TRE, K_TUP, K_TABR, K_ARRB,
-       K_NODEB, K_NODEO, K_NODEZ, K_TRER, K_THR, K_LSTB, K_TABB, K_TREB };
+       K_NODEB, K_NODEO, K_NODEZ, K_TRER, K_THR, K_LSTB, K_TABB, K_TREB, K_NODEM };
 enum { C_MANAGED, C_ROOT, C_RAW };
 static const char* kind_names[] = { "node", "nodea", "ref", "box", "arr", "lst", "tab", "tre", "tup", "tabr", "arrb",
-                                    "nodeb", "nodeo", "nodez", "trer", "thr", "lstb", "tabb", "treb", NULL };
+                                    "nodeb", "nodeo", "nodez", "trer", "thr", "lstb", "tabb", "treb", "nodem", NULL };
 /* instrumented objects (destructor observed): plain 48-byte struct, the same from the arena, a 1 MiB struct whose last
- * two words are pointer fields, a 52-byte struct (size not a multiple of the word size), a type of size 0 */
-static bool is_node(int kind) { return kind is K_NODE or kind is K_NODEA or kind is K_NODEB or kind is K_NODEO or kind is K_NODEZ; }
+ * two words are pointer fields, a 52-byte struct (size not a multiple of the word size), a type of size 0, a struct that
+ * keeps its 4 pointer fields in a malloc'd side block and implements Mark to report them (the documented extension point) */
+static bool is_node(int kind) { return kind is K_NODE or kind is K_NODEA or kind is K_NODEB or kind is K_NODEO or kind is K_NODEZ or kind is K_NODEM; }
 static bool is_ptrobj(int kind) { return kind is K_REF or kind is K_BOX; }
 
 struct Node { int64_t id; uint64_t canary; var out[4]; };
 #define BIGPAD (1 << 20)
 struct NodeB { int64_t id; uint64_t canary; var out[2]; char pad[BIGPAD]; var tail[2]; };
 #define NODEO_SIZE 52    /* id, canary, out[4], 4 more bytes */
+struct NodeM { int64_t id; uint64_t canary; var* side; };
 
 struct Led {
   var ptr; int kind, cls; int dtor; int released; bool used; bool explicit_del; bool unregistered; long seq;
@@ -135,10 +142,20 @@ static void NodeZ_Del(var self) {
   if (nfin < MAXOBJ * 2) { finlog[nfin++] = id; }
 }
 static var NodeZ = CelloObject(NodeZ, 0, Instance(New, NodeZ_New, NodeZ_Del));
+/* pointers live outside the struct: invisible to the conservative scan, reported through Mark */
+static void NodeM_New(var self, var args) { Node_New(self, args); ((struct NodeM*)self)->side = calloc(4, sizeof(var)); }
+static void NodeM_Del(var self) { struct NodeM* n = self; Node_Del(self); free(n->side); n->side = NULL; }
+static void NodeM_Mark(var self, var gc, void(*f)(var,void*)) {
+  struct NodeM* n = self;
+  if (n->side is NULL) { return; }                 /* allocated, not constructed yet */
+  for (int i = 0; i < 4; i++) { if (n->side[i] isnt NULL) { f(gc, n->side[i]); } }
+}
+static var NodeM = Cello(NodeM, Instance(New, NodeM_New, NodeM_Del), Instance(Mark, NodeM_Mark));
 /* pointer field k of an instrumented object */
 static var* field_of(int kind, var p, int64_t k) {
   if (kind is K_NODEB) { struct NodeB* b = p; return (k % 4) < 2 ? &b->out[k % 4] : &b->tail[k % 4 - 2]; }
   if (kind is K_NODEZ) { harness_bug("field of a zero-size object"); }
+  if (kind is K_NODEM) { return &((struct NodeM*)p)->side[k % 4]; }
   return &((struct Node*)p)->out[k % 4];
 }
 
@@ -208,6 +225,7 @@ static var mk(int h, int kind, int cls, var a0, var a1) {
     case K_NODEB: type = NodeB; args = t_id; break;
     case K_NODEO: type = NodeO; args = t_id; break;
     case K_NODEZ: type = NodeZ; args = t_id; break;
+    case K_NODEM: type = NodeM; args = t_id; break;
     case K_TRER: type = Tree; args = t_refref; break;
     case K_THR: type = Thread; args = t_none; break;
     case K_LSTB: type = List; args = t_box; break;
@@ -372,7 +390,7 @@ static void do_op(char** w, int n) {
     int s = hnd(w[1]); int64_t k = atoll(w[2]); var t = strcmp(w[3], "null") is 0 ? NULL : P(hnd(w[3]));
     char key[32]; snprintf(key, sizeof key, "k%lld", (long long)k);
     switch (led[s].kind) {
-      case K_NODE: case K_NODEA: case K_NODEB: case K_NODEO: *field_of(led[s].kind, P(s), k) = t; break;
+      case K_NODE: case K_NODEA: case K_NODEB: case K_NODEO: case K_NODEM: *field_of(led[s].kind, P(s), k) = t; break;
       case K_REF: ref(P(s), t); break;
       case K_ARR: case K_LST: push(P(s), $R(t)); break;
       case K_ARRB: case K_LSTB: push(P(s), t); break;
@@ -389,7 +407,7 @@ static void do_op(char** w, int n) {
     int s = hnd(w[1]); int64_t k = atoll(w[2]);
     char key[32]; snprintf(key, sizeof key, "k%lld", (long long)k);
     switch (led[s].kind) {
-      case K_NODE: case K_NODEA: case K_NODEB: case K_NODEO: *field_of(led[s].kind, P(s), k) = NULL; break;
+      case K_NODE: case K_NODEA: case K_NODEB: case K_NODEO: case K_NODEM: *field_of(led[s].kind, P(s), k) = NULL; break;
       case K_REF: ref(P(s), NULL); break;
       case K_ARR: case K_LST: case K_TUP: case K_ARRB: case K_LSTB: pop(P(s)); break;
       case K_TAB: case K_TRE: case K_TABB: case K_TREB: rem(P(s), $I(k)); break;
@@ -422,7 +440,7 @@ static void do_op(char** w, int n) {
   else if (OP("collect")) { Cello_Verif_GC_Collect(gc); }
   else if (OP("alloc")) {                /* alloc h kind cls : alloc / alloc_root / alloc_raw without a constructor call */
     int h = hnd(w[1]); int kind = kind_of(w[2]); int cls = w[3][0] is 'm' ? C_MANAGED : (w[3][1] is 'o' ? C_ROOT : C_RAW);
-    if (not is_node(kind)) { harness_bug("alloc kind"); }
+    if (not is_node(kind) or kind is K_NODEM) { harness_bug("alloc kind"); }
     var type = kind is K_NODE ? Node : kind is K_NODEA ? NodeA : kind is K_NODEB ? NodeB : kind is K_NODEO ? NodeO : NodeZ;
     want_res = -1;
     bool running_now = true;
